@@ -107,9 +107,21 @@ def oracle(case, res):
         return 'harness:unparsable result'
     pgn = int(m.group(1))
     r = REF.get(pgn)
+    data = b'' if m.group(5) == '-' else bytes.fromhex(m.group(5))
+    names = [x['name'] for x in s['ins']]
+    if pgn == 127489 and r is not None and all(b in names for b in p_C05.STATUS1_BITS + p_C05.STATUS2_BITS):
+        # the one-bool-per-bit overload / alias: each flag sits on its bit of discrete status 1 (16 bits at bit 160) / 2 (at bit 176), in the
+        # order of the published field list
+        args = [p_C05.parse_arg(x) for x in t[2:]]
+        for word, bits in (('status 1', p_C05.STATUS1_BITS), ('status 2', p_C05.STATUS2_BITS)):
+            f = [x for x in r['fields'] if x['name'] == word][0]
+            exp = sum((1 << k) for k, b in enumerate(bits) if args[names.index(b)])
+            got = get_bits(data, f['off'], f['len']) if f['off'] + f['len'] <= 8 * len(data) else None
+            if got != exp:
+                return 'PGN127489.%s:flags %s written as %s, expected %#x' % (word.replace(' ', '_'), [b for b in bits if args[names.index(b)]], hex(got) if got is not None else 'nothing', exp)
+        return None
     if r is None or r['setter'] != s['name']:
         return None
-    data = b'' if m.group(5) == '-' else bytes.fromhex(m.group(5))
     args = [p_C05.parse_arg(x) for x in t[2:]]
     for f in r['fields']:
         key = 'PGN%d.%s' % (pgn, re.sub(r'[^A-Za-z0-9]+', '_', f['name']))
@@ -205,6 +217,18 @@ def gen(seed, tier):
             continue
         for tup in p_C05.tuples(r, f, per, thorough):
             cases.append(('S %s %s' % (f['name'], ' '.join(p_C05.tok(x, v) for x, v in zip(f['ins'], tup)))).rstrip())
+    # the one-bool-per-bit overload and alias of PGN 127489: every flag alone, all but one, random patterns
+    flags = p_C05.STATUS1_BITS + p_C05.STATUS2_BITS
+    for f in p_C05.META['functions']:
+        if f['kind'] == 'S' and f['harness'] and all(b in [x['name'] for x in f['ins']] for b in flags):
+            names = [x['name'] for x in f['ins']]
+            base = p_C05.tuples(r, f, 1, thorough)[0]
+            pats = [[b == f1 for b in flags] for f1 in flags] + [[b != f1 for b in flags] for f1 in flags] + [[r.random() < 0.5 for _ in flags] for _ in range(8)]
+            for pat in pats:
+                tup = list(base)
+                for b, v in zip(flags, pat):
+                    tup[names.index(b)] = 1 if v else 0
+                cases.append(('S %s %s' % (f['name'], ' '.join(p_C05.tok(x, v) for x, v in zip(f['ins'], tup)))).rstrip())
     return cases
 
 
